@@ -841,6 +841,18 @@ MUTANTS = [
          "        size_type start_idx = this->my_size.fetch_add(delta);\n        size_type end_idx = start_idx + delta;\n        if (end_idx > 1000000) shrink_to_fit();")]),
     dict(name='c11-segment-base-off', prop='C11', clause='D5', edits=[
         ('include/oneapi/tbb/detail/_segment_table.h', "        return size_type(1) << index & ~size_type(1);", "        return size_type(1) << index & ~size_type(3);")]),
+    dict(name='c11-abandoned-segments-left-pending', prop='C11', clause='D9', edits=[(CV_H,
+        "                mark_abandoned_segments(table, idx, end_idx);\n                segment_index_type last_allocated_segment = this->find_last_allocated_segment(table);\n                size_type segment_size = this->segment_size(last_allocated_segment);\n                end_idx = end_idx < segment_size ? end_idx : segment_size;\n                for (size_type i = idx; i < end_idx; ++i) {\n                    // Only the last segment of the range is allocated in advance,\n                    // the segments between the failed element and the last one may be not allocated yet\n                    if (table[this->segment_index_of(i)].load(std::memory_order_relaxed) > this->segment_allocation_failure_tag) {\n                        zero_unconstructed_elements(&this->internal_subscript(i), /*count =*/1);\n                    }\n                }\n            });\n            segment_table_allocator_traits::construct(base_type::get_allocator(), element_address, args...);",
+        "                segment_index_type last_allocated_segment = this->find_last_allocated_segment(table);\n                size_type segment_size = this->segment_size(last_allocated_segment);\n                end_idx = end_idx < segment_size ? end_idx : segment_size;\n                for (size_type i = idx; i < end_idx; ++i) {\n                    // Only the last segment of the range is allocated in advance,\n                    // the segments between the failed element and the last one may be not allocated yet\n                    if (table[this->segment_index_of(i)].load(std::memory_order_relaxed) > this->segment_allocation_failure_tag) {\n                        zero_unconstructed_elements(&this->internal_subscript(i), /*count =*/1);\n                    }\n                }\n            });\n            segment_table_allocator_traits::construct(base_type::get_allocator(), element_address, args...);")]),
+    dict(name='c11-table-wait-ignores-failure-flag', prop='C11', clause='D9', edits=[(CV_H,
+        """            while (this->get_table() == this->my_embedded_table) {
+                if (this->my_segment_table_allocation_failed.load(std::memory_order_relaxed)) {
+                    throw_exception(exception_id::bad_alloc);
+                }
+                backoff.pause();
+            }""", """            while (this->get_table() == this->my_embedded_table) {
+                backoff.pause();
+            }""")]),
     # ---------------------------------------------------------------- C12
     dict(name='c12-cas-before-set_next', prop='C12', clause='D1', edits=[
         (CUB_H, "        new_node->set_next(current_next_node);\n        return prev_node->try_set_next(current_next_node, new_node);",
